@@ -464,16 +464,77 @@ theorem strictSorted_dedupAdj : ∀ {l : List Vec}, l.Pairwise (fun a b => lexLe
       · have hba : lexLe b a = true := (List.pairwise_cons.1 htail).1 a hal
         exact hab (lexLe_antisymm a b hab' hba)
 
+theorem mem_insertLex {x z : Vec} : ∀ {l : List Vec}, z ∈ insertLex x l ↔ z = x ∨ z ∈ l
+  | [] => by simp [insertLex]
+  | y :: ys => by
+    unfold insertLex
+    by_cases h : lexLe x y = true
+    · simp [h]
+    · simp only [h, Bool.false_eq_true, if_false, List.mem_cons, mem_insertLex (l := ys)]
+      constructor
+      · rintro (h | h | h)
+        · exact Or.inr (Or.inl h)
+        · exact Or.inl h
+        · exact Or.inr (Or.inr h)
+      · rintro (h | h | h)
+        · exact Or.inr (Or.inl h)
+        · exact Or.inl h
+        · exact Or.inr (Or.inr h)
+
+theorem pairwise_insertLex (x : Vec) : ∀ {l : List Vec}, l.Pairwise (fun a b => lexLe a b = true) →
+    (insertLex x l).Pairwise (fun a b => lexLe a b = true)
+  | [], _ => by simp [insertLex]
+  | y :: ys, h => by
+    unfold insertLex
+    have hy := List.pairwise_cons.1 h
+    by_cases hxy : lexLe x y = true
+    · simp only [hxy, if_true]
+      refine List.pairwise_cons.2 ⟨fun z hz => ?_, h⟩
+      rcases List.mem_cons.1 hz with rfl | hz
+      · exact hxy
+      · exact lexLe_trans _ _ _ hxy (hy.1 z hz)
+    · simp only [hxy, Bool.false_eq_true, if_false]
+      have hyx : lexLe y x = true := by
+        have := lexLe_total x y
+        simp only [Bool.or_eq_true] at this
+        rcases this with h | h
+        · exact absurd h hxy
+        · exact h
+      refine List.pairwise_cons.2 ⟨fun z hz => ?_, pairwise_insertLex x hy.2⟩
+      rcases mem_insertLex.1 hz with rfl | hz
+      · exact hyx
+      · exact hy.1 z hz
+
+theorem mem_isort {z : Vec} : ∀ {l : List Vec}, z ∈ isort l ↔ z ∈ l
+  | [] => by simp [isort]
+  | x :: xs => by simp [isort, mem_insertLex, mem_isort (l := xs)]
+
+theorem pairwise_isort : ∀ l : List Vec, (isort l).Pairwise (fun a b => lexLe a b = true)
+  | [] => by simp [isort]
+  | x :: xs => pairwise_insertLex x (pairwise_isort xs)
+
 theorem mem_canon {l : List Vec} {x : Vec} : x ∈ canon l ↔ x ∈ l := by
   unfold canon
+  rw [mem_dedupAdj, mem_isort]
+
+theorem strictSorted_canon (l : List Vec) : StrictSorted (canon l) :=
+  strictSorted_dedupAdj (pairwise_isort l)
+
+theorem mem_canonFast {l : List Vec} {x : Vec} : x ∈ canonFast l ↔ x ∈ l := by
+  unfold canonFast
   rw [mem_dedupAdj]
   exact (List.mergeSort_perm l lexLe).mem_iff
 
-theorem strictSorted_canon (l : List Vec) : StrictSorted (canon l) := by
-  unfold canon
+theorem strictSorted_canonFast (l : List Vec) : StrictSorted (canonFast l) := by
+  unfold canonFast
   apply strictSorted_dedupAdj
   exact List.pairwise_mergeSort (le := lexLe) (fun a b c => lexLe_trans a b c)
     (fun a b => lexLe_total a b) l
+
+/-- The merge-sort canonical form is the canonical form. -/
+theorem canonFast_eq_canon (l : List Vec) : canonFast l = canon l :=
+  (strictSorted_canonFast l).eq_of_setEq (strictSorted_canon l)
+    (fun _ => mem_canonFast.trans mem_canon.symm)
 
 /-- Canonical forms are equal exactly when the sets are. -/
 theorem canon_eq_iff {A B : List Vec} : canon A = canon B ↔ SetEq A B := by
@@ -765,6 +826,8 @@ private theorem sweep_spec : ∀ (R P acc : List Vec),
 
 /-- **The fast front is the front.** -/
 theorem frontFast_eq_front (rows : List Vec) : frontFast rows = front rows := by
+  unfold frontFast
+  rw [canonFast_eq_canon]
   have hs := strictSorted_canon rows
   obtain ⟨hsub, hmem⟩ := sweep_spec (canon rows) [] [] (by simpa using hs) (by simp) (by simp)
   simp only [List.nil_append] at hsub hmem
